@@ -590,7 +590,7 @@ func (fr *Frame) mergeByRows(out *State, s Sort, k, tag string, edges []string, 
 	sort.Strings(touched)
 	st := State{mem: map[Sort]string{s: common}, brk: out.brk}
 	for _, r := range touched {
-		row := vc.freshRaw("row_"+k+"_"+tag, "(Array Int "+k+")")
+		row := vc.freshRaw("row_"+k+"_"+tag, "(Array Int "+s.elem()+")")
 		for i := range terms {
 			tmp := State{mem: map[Sort]string{s: terms[i]}}
 			vc.assert(sImp(edges[i], sEq(row, vc.rowOf(&tmp, s, r))))
@@ -902,7 +902,7 @@ func (fr *Frame) enterLoop(li *loopInfo, preds []*ssa.BasicBlock, edges []string
 				st.mem[s] = nm
 			} else {
 				for _, r := range ws.rows[s] {
-					row := vc.freshRaw("row_"+k, "(Array Int "+k+")")
+					row := vc.freshRaw("row_"+k, "(Array Int "+s.elem()+")")
 					vc.setRow(&st, s, r, row)
 				}
 			}
